@@ -11,7 +11,8 @@ L4  restart_workers: every worker of the pool is restarted once with a fresh pip
     particular for a worker whose queue run() had already dropped on EOF.
 L5  add_worker: on failure the new worker (if constructed) is terminated, is not retained by either map, and no previously registered
     worker loses its registration; on success it is registered with the parent end of the pipe it was constructed with.
-L2/L3 (run() re-initialises its bookkeeping; closed workers are never handed work) are obligations of the C07 cone (Lr requires / Lf pre)."""
+L2  run() re-initialises its bookkeeping: the run contract of the C07 cone (C07.Lr) checked here from an entry state with arbitrary leftovers.
+L3  (closed workers are never handed work) is an obligation of the C07 cone (Lf pre)."""
 import z3
 
 from pyvc import smt
@@ -613,6 +614,19 @@ def build(ex):
         ensures=[registered_ok], raises={'AnyException': None, 'ValueError': None}, raises_only=['AnyException', 'ValueError'],
         all_exits=[existing_kept, failed_not_leaked, queues_subset], options={'recv_closed_check': False}), None))
     lemmas += wrapper_lemmas(ex)
+
+    # L2: run() starts from a clean slate.  This is the run contract of the C07 cone (its closures are used through their contracts, which C07 proves): its
+    # entry state leaves every per-run field of the pool - _retries, _pending, _pending_per_worker, _depleted - ARBITRARY, i.e. whatever an earlier run (also one
+    # that failed with PoolError while inputs were waiting to be retried) left behind, and the ghost history of this run empty; the loop invariants (conservation
+    # per input, no duplicates, results paired with answered inputs) then have to hold at loop entry and the results have to be this run's only.
+    from . import pool as _p
+    _p.install(ex)
+    _p.build_closure_contracts(ex)
+    run = _p.build_run_contract(ex)
+    run.lid = 'L2'
+    run.name = ('C09.L2 Pool.run starts from whatever an earlier (possibly failed) run left in its bookkeeping and still returns exactly one genuine result per input '
+                'of THIS run (retry on)')
+    lemmas.append((run, None))
     return lemmas
 
 
